@@ -6,6 +6,10 @@ HERE = os.path.dirname(os.path.dirname(os.path.abspath(__file__)))
 props = [json.loads(l) for l in open(os.path.join(HERE, "properties.jsonl"))]
 
 CLAIMS = {
+ "C01": dict(
+  technique="custom static checker over clang CFGs with exceptional edges added per try/catch: path enumeration of Utest::run with every SetJmp call allowed to return 0, return 1 or raise; must-call/ordering rules on failWith, addFailure, terminators (class-hierarchy closure: no normal exit), jump-buffer depth effect per handler, finite-partition constant folding of isFailure and of the runner's exit expression, literal/label table of the summary printer",
+  text="Decides, for every path through the lifecycle code (not for sampled test programs): body only after a completed setup, teardown on every returning path including every catch handler, one failure record per escaped exception and none for the framework's own exception, every terminator override never returns, the jump-buffer depth is restored by every handler (the '11th consecutive failing test' clause), isFailure's truth table, a fresh TestResult per repetition with monotone accumulators and a zero exit value iff both are zero, the OK/Errors summary with each counter under its label, pre/post bracketing and plugin chain order; thorough adds the -fno-exceptions build. Counts for concrete programs are not decided.",
+  note="Trusted: setjmp/longjmp and C++ unwinding semantics; user phases are modelled as may-return/may-fail/may-throw at the SetJmp call; clang 14 AST/CFG."),
  "C12": dict(
   technique="custom static checker: extraction of the option dispatch chain with prefix-shadow analysis, option->field->getter->consumer tables against the documented contract, dominance-based bounds facts for every argv subscript and pointer offset, path skeletons of rejection and of repeat/shuffle value parsing",
   text="Decides that every documented option is reachable in the dispatch order, sets/reads/consumes the documented field with the documented modifier semantics (s, x, g/n, group.name and TEST() forms), that every av[...] access and every offset into an argument is dominated by its bounds check, that a rejected argument returns false in the same iteration and no test runs after rejection, and that -r/-s consume the next argument only for a non-zero number. Memory safety and termination of the string primitives on arbitrary bytes are C13's undecided part.",
